@@ -386,7 +386,7 @@ func collValue(e xExpr) interface{} {
 	case "islice":
 		out := []interface{}{}
 		for _, v := range e.Vs {
-			out = append(out, v)
+			out = append(out, atomValue(v)) // typed: false, 0, "" sit in the slice as bool, int, string
 		}
 		return out
 	case "ptrslice":
